@@ -15,7 +15,7 @@ CHECK = dict(
          "no-op programs return the source digest, same program on an identical fresh input returns the same digest, all re-checked after Close for layouts. "
          "Non-trivial = successful Apply of >=2 options of which at least one touches layers or media types; distinct by (option multiset, image shape, endpoints).",
     jobs=[dict(REPLAY, env=_ENV),
-          rapid("prop", "TestVerifProp", 10000, 300000, sq=16, st=16, env=_ENV)],
+          rapid("prop", "TestVerifProp", 14000, 300000, sq=16, st=16, env=_ENV)],
     technique="property-based testing (rapid): generated images, endpoint pairings and option programs run through mod.Apply against an in-process model registry and raw OCI layouts; "
               "independent closure auditor (encoding/json, crypto, compress/gzip, zstd) as oracle",
     level_text="Generated-input search over image shapes, endpoint pairings and programs of modification options; every successful mod.Apply is audited from raw target storage "
